@@ -277,7 +277,7 @@ fn plan_group(inp: &Inp, rng: &mut Rng, thorough: bool, primary: bool) -> Vec<(V
         }
     }
     // every single split point (two chunks)
-    let budget = if thorough { usize::MAX } else if primary { 120 } else { 20 };
+    let budget = if thorough { if primary { 1500 } else { 150 } } else if primary { 120 } else { 20 };
     if n - 1 <= budget {
         for c in 1..n {
             add(&mut plans, vec![c], "canon");
@@ -300,7 +300,7 @@ fn plan_group(inp: &Inp, rng: &mut Rng, thorough: bool, primary: bool) -> Vec<(V
         }
     }
     // all partitions over a window of interesting positions
-    let k = if thorough { if primary { 10 } else { 6 } } else if primary { 6 } else { 2 };
+    let k = if thorough { if primary { 10 } else { 5 } } else if primary { 6 } else { 2 };
     let mut pool: Vec<usize> = if marks.is_empty() { (1..n).collect() } else { near.iter().copied().collect() };
     if pool.len() > k {
         // a contiguous run of neighbouring positions, placed at random
@@ -310,10 +310,10 @@ fn plan_group(inp: &Inp, rng: &mut Rng, thorough: bool, primary: bool) -> Vec<(V
     for c in subsets(&pool) {
         add(&mut plans, c, "canon");
     }
-    if thorough && primary && marks.len() > k {
+    if thorough && primary && marks.len() > 8 {
         // a second window made of marks spread over the input
-        let step = marks.len() / k;
-        let spread: Vec<usize> = (0..k).map(|i| marks[i * step]).collect::<BTreeSet<_>>().into_iter().collect();
+        let step = marks.len() / 8;
+        let spread: Vec<usize> = (0..8).map(|i| marks[i * step]).collect::<BTreeSet<_>>().into_iter().collect();
         for c in subsets(&spread) {
             add(&mut plans, c, "canon");
         }
@@ -338,7 +338,7 @@ fn plan_group(inp: &Inp, rng: &mut Rng, thorough: bool, primary: bool) -> Vec<(V
         }
     }
     // random multi-splits
-    let r = if thorough { 40 } else if primary { 6 } else { 2 };
+    let r = if thorough { 20 } else if primary { 6 } else { 2 };
     for _ in 0..r {
         let c = random_cuts(rng, n, inp.allow_empty);
         add(&mut plans, c, "canon");
@@ -357,7 +357,7 @@ fn plan_group(inp: &Inp, rng: &mut Rng, thorough: bool, primary: bool) -> Vec<(V
             let c = random_cuts(rng, n, inp.allow_empty);
             add(&mut plans, c, m);
         }
-        if thorough && primary && n - 1 <= 600 {
+        if thorough && primary && n - 1 <= 300 {
             for c in 1..n {
                 add(&mut plans, vec![c], m);
             }
